@@ -2,7 +2,7 @@
    verifier, and kind "discbuild": Disclosure::new(..).salt_len(..).algorithm(..).build(). *)
 From Coq Require Import List String Ascii Bool Arith NArith.
 Import ListNotations.
-Require Import SDJ.Json SDJ.Wire SDJ.Model2 SDJ.Out SDJ.Restore2 SDJ.Split SDJ.SplitM SDJ.Spec SDJ.RefVerify SDJ.Verify SDJ.CaseLib.
+Require Import SDJ.Json SDJ.Wire SDJ.Model2 SDJ.Out SDJ.Restore2 SDJ.Split SDJ.SplitM SDJ.Spec SDJ.RefVerify SDJ.Verify SDJ.CaseLib SDJ.Base64.
 Local Open Scope string_scope.
 
 Definition dec_opt_of_table (tbl : list json) (s : string) : option json :=
@@ -119,7 +119,22 @@ Definition discbuild_oracle (input o : json) : option string :=
         Some "from_base64 of the built disclosure does not give back name, value and digest"
       else None.
 
+(* the base64url model of the development (Base64.v, about which decode_encode and encode_separator_free are proved)
+   against what the library emits: the disclosure string is the model's encoding of the text it decodes to, the
+   model decodes it back, and the digest is the model's encoding of the raw hash bytes *)
+Definition base64_model_agrees (o : json) : bool :=
+  if obs_is "ok" o then
+    let v := obs_val o in
+    match jget "text" v, jget "disclosure" v, jget "digest" v, jget "digest_hex" v with
+    | JStr text, JStr d, JStr g, JStr hx =>
+        String.eqb (Base64.encode text) d
+        && (match Base64.decode d with Some t => String.eqb t text | None => false end)
+        && (match unhex hx with Some raw => String.eqb (Base64.encode raw) g | None => false end)
+    | _, _, _, _ => false end
+  else true.
+
 Definition case_discbuild (input obs : json) : verdict :=
   match discbuild_oracle input (jget "build" obs) with
   | Some w => VPropFail ("Disclosure::build: " ++ w)
-  | None => VOk true end.
+  | None => if base64_model_agrees (jget "build" obs) then VOk true
+            else VMismatch "Disclosure::build: the base64url model (Base64.v) does not reproduce the disclosure string or the digest" end.
